@@ -208,7 +208,18 @@ def make_tar(path, files, root_prefix=None):
         offs = [m.offset for m in ms]
         last = ms[-1]
         end = last.offset_data + ((last.size + 511) // 512) * 512
-    return "".join(letters), offs + [end], end
+    # places where an archive can end that are *not* between two entries: inside a header, inside the payload or the
+    # padding of an extended (PAX) header, inside file data, inside the padding behind file data
+    struct = []
+    for m in ms:
+        struct.append(("header", m.offset + 100))
+        if m.offset_data - m.offset > 512:
+            struct += [("pax-payload", m.offset + 512 + 10), ("pax-padding", m.offset + 1024 - 200), ("main-header", m.offset_data - 300)]
+        if m.size:
+            struct.append(("data", m.offset_data + m.size // 2))
+            if m.size % 512:
+                struct.append(("data-padding", m.offset_data + m.size + (512 - m.size % 512) // 2))
+    return "".join(letters), offs + [end], (end, struct)
 
 
 # ------------------------------------------------------------------------------------------------ running one case
@@ -736,6 +747,19 @@ def plan_faults(ctx, case, base):
             jobs.append({"cls": "read", "k": k, "side": "in", "kind": "SHORT", "short": ctx.rng.choice([1, 17, 511, 512, 513, 1000, 3000])})
             if ctx.rng.random() < 0.5:
                 jobs.append({"cls": "read", "k": k, "side": "in", "kind": "SHORT"})
+        if case.cut[0] == "tar":
+            # the archive ends at a structurally interesting place (the first read fills the 128 KiB stream buffer): one of
+            # each kind always, more by the seed
+            first = [x for x in case.cut[2][1] if x[1] < 131072 - 512]
+            pick, seen = [], set()
+            for kind, pos in first:
+                if kind not in seen:
+                    seen.add(kind)
+                    pick.append(pos)
+            rest = [pos for _, pos in first if pos not in pick]
+            ctx.rng.shuffle(rest)
+            for pos in pick + rest[:12 if ctx.quick() else len(rest)]:
+                jobs.append({"cls": "read", "k": 1, "side": "in", "kind": "SHORT", "short": pos})
     for cls in ALLOC_CLASSES:
         n = cnt.get((cls, "in"), 0)
         for k in range(1, n + 1):
@@ -933,7 +957,7 @@ def judge_cut(case, base, r, cutref):
     if case.cut[0] == "image":
         return False, "image"                # a shortened image never legitimately reads as something else
     if case.cut[0] == "tar":
-        bounds, end = case.cut[1], case.cut[2]
+        bounds, end = case.cut[1], case.cut[2][0]
         if off < end and off not in bounds:
             return False, "mid-record"       # the archive ends inside a header or inside file data: must be reported
     ref = cutref.get(path, off)
@@ -1053,6 +1077,9 @@ def process_case(ctx, case, tools, syms, skels, env, work, report, stats, thorou
         if v == "failure-output-left" and unl and unl[-1] == "miss":
             # the cleanup did call unlink, but the name it used does not designate the output file from where the process is
             key = "%s:failure-output-left:unlink-misses-relative-name" % case.tool
+        if is_cut and v != "ok":
+            # where the read that met the end happened says nothing; what the tool made of the shortened input does
+            key = "%s:truncated-input:%s:%s" % (case.tool, v, cutnote.split()[0])
         if len(acc["samples"]) < 12 and (v != "ok" or stats["runs"] % 211 == 0):
             acc["samples"].append({"case": case.name, "fault": f, "verdict": v, "rc": r["rc"], "failing_site": real_ran[-1] if real_ran and not o["exit0"] else None,
                                    "innermost": inner, "stderr": r["stderr"].strip()[-160:]})
@@ -1125,6 +1152,9 @@ def process_case(ctx, case, tools, syms, skels, env, work, report, stats, thorou
         if v != "ok" and key.endswith(":unlink-misses-relative-name"):
             report(key, "%s fails (here: %s call #%d in %s) but leaves its partial output file behind: pack_files() has changed into the pack directory and "
                         "sqfs_writer_cleanup() unlinks the *relative* output name from there" % (case.tool, f["cls"], f["k"], ent["ran"][-1] if ent["ran"] else "?"), replay)
+        elif v != "ok" and ":truncated-input:" in key:
+            report(key, "%s %s when its input ends early (%s; the input appears to be %s bytes long)"
+                   % (case.tool, WHAT[v], replay["cut"], r["report"]["cut"][1] if r["report"]["cut"] else "?"), replay)
         elif v != "ok":
             report(key, "%s %s when the %s call #%d (%s) fails in %s [%s]" % (case.tool, WHAT[v], f["cls"], f["k"], f.get("kind", "NULL"), key.split("@")[-1] if "@" in key else "cleanup",
                                                                                 " <- ".join(x.split("@")[0] for x in replay["backtrace"][:4])), replay)
